@@ -202,6 +202,20 @@ def relational(run, seed, models, nproblems):
                         continue
                     st = make_tree(to_newick(tree, split=(tip, fr)) + ";")
                     expect(f"MoveRootOntoEdge:{tag}", lnl(name, st.rooted_at(f"{tip}_split"), aln, params, mprobs))
+                # a ROOTED tree (two children at the root, the root sitting on a tip's edge) written with its root children
+                # in either order, and the library's own root-removing / root-moving methods applied to it: unrooted()
+                # dissolves the inner root child and must carry its length over to the other child whatever the order
+                st = make_tree(to_newick(tree, split=(tip, rnd.uniform(0.2, 0.8))) + ";")
+                kids = [c.get_newick(with_distances=True).rstrip(";") for c in st.rooted_at(f"{tip}_split").children]
+                kids.sort(key=lambda k: k.startswith("("))
+                for order_tag, ks in (("tip-first", kids), ("clade-first", kids[::-1])):
+                    two = make_tree("(" + ",".join(ks) + ");")
+                    expect(f"RootOnEdge:{order_tag}", lnl(name, two, aln, params, mprobs))
+                    expect(f"Unrooted:{order_tag}", lnl(name, two.unrooted(), aln, params, mprobs))
+                    expect(f"UnrootedDeepcopy:{order_tag}", lnl(name, two.unrooted_deepcopy(), aln, params, mprobs))
+                    expect(f"RootAtMidpoint:{order_tag}", lnl(name, two.root_at_midpoint(), aln, params, mprobs))
+                    other = rnd.choice([t for t in ("a", "b", "c", "d", "e") if t != tip])
+                    expect(f"RootedWithTip:{order_tag}", lnl(name, two.rooted_with_tip(other), aln, params, mprobs))
             roots = [e.name for e in tree.get_edge_vector(include_root=False) if not e.is_tip()]
             for r in roots:
                 val = lnl(name, tree.rooted_at(r), aln, params, mprobs)
